@@ -72,9 +72,11 @@ TransformCases == { [kind |-> "transform", cls |-> c, fitted |-> f, ns |-> n, dt
 \* saves: an object may be written more than once (a checkpoint file, then a result file): saving is a
 \* query, the second file must reload to the same object as the first (2 = the second file is read back).
 \* transform: the flow was constructed with a fitted data transform (logit + affine)
-FlowCases == { [kind |-> "flow", backend |-> b, trained |-> tr, dtype |-> d, kwargs |-> kw, transform |-> t, saves |-> ns] :
+\* dims: number of parameters (flowjax inserts random permutations between layers from 3 dimensions on)
+FlowCases == { [kind |-> "flow", backend |-> b, trained |-> tr, dtype |-> d, kwargs |-> kw, transform |-> t, saves |-> ns, dims |-> dm] :
                  b \in {"zuko", "flowjax"}, tr \in BOOLEAN, d \in {"float32", "float64"}, kw \in BOOLEAN,
-                 t \in BOOLEAN, ns \in {1, 2} }
+                 t \in BOOLEAN, ns \in {1, 2}, dm \in {2, 3, 5} } \ {c \in [kind : {"flow"}, backend : {"zuko", "flowjax"}, trained : BOOLEAN,
+                 dtype : {"float32", "float64"}, kwargs : BOOLEAN, transform : {TRUE}, saves : {1, 2}, dims : {3, 5}] : TRUE}
 ResumeCases == { [kind |-> "resume", backend |-> b, dtype |-> d, kwargs |-> kw, periodic |-> p, xp |-> n] :
                    b \in {"verifflow", "zuko", "flowjax"}, d \in {"default", "float32", "float64"}, kw \in BOOLEAN,
                    p \in BOOLEAN, n \in {"numpy", "torch", "jax"} }
